@@ -556,3 +556,71 @@ def rows_stream(ctx, worlds, runs, outside=lambda w: False):
             j += 1
         out.append((idx[k], j, mv[j] if isinstance(mv, list) and j < len(mv) else None, exp[j] if j < len(exp) else None))
     return out, len(cases)
+
+
+# ------------------------------------------------------------------ graph-level rows as an output of the machine (Model/SimGraphRows.v)
+HEADER_GROWS = "From Verif Require Import Gen.Src_Task Gen.Src_Event Model.Sim Model.SimGraphRows."
+GROW_KINDS = ("TASK_GRAPH_FINISHED", "MISSED_TASK_GRAPH_DEADLINE", "SIMULATOR_END(graphs)")
+
+
+def grows_expected(run, nm):
+    """(expected rows, gallina list of ginfo): the graphs as the workload handed them to the simulator (deadline, sinks,
+    members from the graph objects at load time) and the captured graph-level rows, graph names -> position of the graph."""
+    gid = {}
+    infos = []
+    for e in run["log"]:
+        if e[0] == "graph":
+            g = e[1]
+            if g["graph"] in gid:
+                continue
+            gid[g["graph"]] = len(gid)
+            members = [nm.t[t["name"]] for t in g["tasks"] if t["name"] in nm.t]
+            sinks = [nm.t[t["name"]] for t in g["tasks"] if not t["children"] and t["name"] in nm.t]
+            infos.append("(mkG %s %s %s %s)" % (gz(gid[g["graph"]]), gz(g["deadline"]), glist([gz(x) for x in sinks]),
+                                               glist([gz(x) for x in members])))
+    out = []
+    for r in (x.split(",") for x in run["rows"]):
+        kind = r[1] if len(r) > 1 else None
+        if kind == "TASK_GRAPH_FINISHED":
+            out.append([0, int(r[0]), gid.get(r[2], -2), int(r[3]), int(r[4])])
+        elif kind == "MISSED_TASK_GRAPH_DEADLINE":
+            out.append([1, int(r[0]), gid.get(r[2], -2), int(r[3])])
+        elif kind == "SIMULATOR_END":
+            out.append([2, int(r[0]), int(r[5]), int(r[6]), int(r[7])])
+    return out, glist(infos)
+
+
+def grows_stream(ctx, worlds, runs, outside=lambda w: False):
+    """S-grows: graph-level rows and graph counters the machine emits for the run's call log vs the simulator's."""
+    cases = []
+    idx = []
+    skipped = {}
+    for i, (w, r) in enumerate(zip(worlds, runs)):
+        if r["status"] != "ended" or not r["log"] or not r.get("rows") or len(r["log"]) > MAX_LOG or outside(w):
+            skipped["not ended / too long / outside the claim"] = skipped.get("not ended / too long / outside the claim", 0) + 1
+            continue
+        gworld, gevs, nm, unsup, _dom = convert(r, w)
+        if unsup:
+            skipped[unsup.split(" (")[0]] = skipped.get(unsup.split(" (")[0], 0) + 1
+            continue
+        exp, ginfos = grows_expected(r, nm)
+        cases.append(("(%s, %s, %s)" % (gworld, ginfos, gevs), exp, i))
+        idx.append(i)
+    ctx.cov.setdefault("input_distribution", {})["sim_runs_not_fed_to_graph_rows_model"] = skipped
+    kinds = {}
+    for c in cases:
+        for row in c[1]:
+            kinds[row[0]] = kinds.get(row[0], 0) + 1
+    ctx.cov["input_distribution"]["graph_rows_compared_by_kind"] = {GROW_KINDS[k]: v for k, v in sorted(kinds.items())}
+    mism = cached_model_stream(ctx, "S-grows", HEADER_GROWS, "world * list ginfo * list ev",
+                               "(fun p => observe_grows (fst (fst p)) (snd (fst p)) (snd p))", cases, 12,
+                               ["Model/Sim.v", "Model/SimGraphRows.v", "Gen/Src_Task.v", "Gen/Src_TaskGraph.v", "Gen/Src_Event.v",
+                                "Model/Val.v"])
+    out = []
+    for k, mv in mism:
+        exp = cases[k][1]
+        j = 0
+        while isinstance(mv, list) and j < min(len(mv), len(exp)) and mv[j] == exp[j]:
+            j += 1
+        out.append((idx[k], j, mv[j] if isinstance(mv, list) and j < len(mv) else None, exp[j] if j < len(exp) else None))
+    return out, len(cases)
